@@ -290,9 +290,6 @@ class ManifestContext:
         else:
             video = self.calculate_video_adaptation_set(
                 stream, max_items=max_items)
-            if not video.representations:
-                raise ValueError(
-                    f'Stream {stream.directory} does not have any usable video')
             audio_adps = self.calculate_audio_adaptation_sets(stream)
             text_adps = self.calculate_text_adaptation_sets(
                 stream, video.lang)
